@@ -265,12 +265,15 @@ def gate_forms(name, sys_, ids):
     """the three catalogue forms of a gate through the catalogue dispatcher."""
     from quara.objects import gate_typical as gt
 
+    from harness import reps
+
     gen = gt.generate_gate_object_from_gate_name_object_name
     dims = R.dims_of(sys_)
     c_sys = csys(sys_, sorted(ids) if ids else None)
-    u = gen(name, "unitary_mat", dims=dims, ids=ids)
-    g = gen(name, "gate_mat", dims=dims, ids=ids)
-    obj = gen(name, "gate", ids=ids, c_sys=c_sys)
+    # the ids as list or tuple (itertools.permutations hands out tuples), decided per (name, ids, form)
+    u = gen(name, "unitary_mat", dims=dims, ids=reps.seq(ids, name + "u") if ids is not None else None)
+    g = gen(name, "gate_mat", dims=dims, ids=reps.seq(ids, name + "g") if ids is not None else None)
+    obj = gen(name, "gate", ids=reps.seq(ids, name + "o") if ids is not None else None, c_sys=c_sys)
     return u, g, obj, c_sys
 
 
@@ -302,6 +305,15 @@ def check_gate(item, ctx):
     if ids is not None:
         ctx.label("ids_order:" + "".join(map(str, R.positions(ids))), "ids_contiguous" if sorted(ids) == list(range(len(ids))) else "ids_gapped")
     u, g, obj, c_sys = gate_forms(name, sys_, ids)
+    if ids is not None and sys_ == "2q":
+        # the same ids as list and as tuple name the same gate (both forms, both containers, compared bit for bit)
+        from quara.objects import gate_typical as _gt
+
+        _gen = _gt.generate_gate_object_from_gate_name_object_name
+        for form in ("unitary_mat", "gate_mat"):
+            a_l = _gen(name, form, dims=R.dims_of(sys_), ids=list(ids))
+            a_t = _gen(name, form, dims=R.dims_of(sys_), ids=tuple(ids))
+            ctx.equal(np.asarray(a_t), np.asarray(a_l), "gate:ids_tuple_same_as_list", f"{name} {form} ids={ids}")
     if not check_unitary_and_hs(ctx, sys_, u, g):
         return
     u_ref = R.unitary(name, sys_, ids)
